@@ -63,3 +63,54 @@ def check_C09(run):
         exhaustive=False,
         assumptions=["totality has a trivial oracle, the weight is on the input space; the TLA+ cursor model IdlCursor.tla proves SliceInRange on the design and refutes it under the original deviation",
                      "coverage-guided fuzzing is outside this family; seeded random bytes stand in"])
+
+
+# ------------------------------------------------------------------------------------------- C07
+import subprocess, tempfile, shutil
+from vlib import REPO, GOENV, open_findings
+
+
+def build_generator(run):
+    out = os.path.join(run.scratch, "genbin")
+    p = subprocess.run(["go", "build", "-o", out, "./cmd/varlink-go-interface-generator"], cwd=REPO, env=GOENV,
+                       stdout=subprocess.PIPE, stderr=subprocess.STDOUT, text=True)
+    if p.returncode != 0:
+        raise Inconclusive("the interface generator does not build: " + p.stdout[-2000:])
+    return out
+
+
+def gen_cfg(dev="{}"):
+    return "SPECIFICATION TraceSpec\nCONSTANTS\n Depth = 1\n Chunk = 8\n Dev = %s\nCONSTRAINT HighWater\nPOSTCONDITION TraceAccepted\nCHECK_DEADLOCK FALSE\n" % dev
+
+
+def gen_classify(run, bad):
+    for k in [k for k in open_findings("C07") if k.get("deviation")]:
+        one = os.path.join(run.scratch, "kf-gen.ndjson")
+        open(one, "w").write(bad + "\n")
+        r = run.validate_trace("GenTrace", gen_cfg('{"%s"}' % k["deviation"]), one)
+        if r["accepted"]:
+            return (k["id"], k["text"])
+    return None
+
+
+def check_C07(run):
+    thorough = run.tier == "thorough"
+    depth, chunk = (2, 50) if thorough else (1, 10)
+    g = run.generate("IdlProgGen", "INIT Init\nNEXT Next\nCONSTANTS\n Depth = %d\n Chunk = %d\n" % (depth, chunk), ["idl_prog.ndjson"], timeout=1500)
+    progs = g["idl_prog.ndjson"]
+    members = sum(len(json.loads(p)["desc"]["members"]) for p in progs)
+    run.extra["program_space"] = {"descriptions": len(progs), "members": members}
+    genbin = build_generator(run)
+    work = os.path.join(run.scratch, "genwork")
+    table_replay(run, progs, ["gen", "-genbin", genbin, "-work", work], "GenTrace", gen_cfg(), "C07 generated descriptions through the generator and the Go toolchain",
+                 classify=gen_classify, shards=1, nontrivial=lambda c: True)
+    shutil.rmtree(work, ignore_errors=True)
+    run.extra["programs"] = len(progs)
+    run.extra["disagreements_checked"] = len(run.violations) + len(run.known)
+    run.evaluations = members
+    run.nontrivial = members
+    run.write_evidence("translation_validation",
+        "programs = TLC-enumerated set Programs of spec/IdlProg.tla: every type tree of depth <= %d at five positions (alias body, method input field, method output field, echo method, error parameter), packed %d types per description; plus name classes (6 interface-name forms incl. dashes, upper case, digits, xn--), 40 field names that are Go keywords / generator-local identifiers / predeclared identifiers, typeless and empty errors, a recursive named type, doc comments containing backticks and quotes on every member; each generated twice (determinism), all packages built in one scratch module against /repo, each compiled package asked for VarlinkGetName/VarlinkGetDescription; a packed description that fails is split per member so that findings name the member; evaluations = members generated and compiled" % (depth, chunk),
+        exhaustive=True,
+        assumptions=["'compiles' is the Go toolchain's verdict, TLA+ contributes the program space, the domain, PkgName and the expected reported texts",
+                     "type trees deeper than %d are not generated" % depth])
